@@ -11,6 +11,7 @@ import (
 	"strconv"
 	"strings"
 	"sync"
+	"sync/atomic"
 	"time"
 	"unicode"
 	"unicode/utf8"
@@ -64,6 +65,7 @@ func Run(ctx *core.Ctx) {
 	JSCounterparts(ctx, exp)
 	wg.Wait()
 	ctx.Extra["cases_violating_per_signature"] = reporter.Counts()
+	ctx.Extra["js_runs_retried_ok"] = atomic.LoadInt64(&jsRetriedOK)
 }
 
 // ---------------------------------------------------------------------------
@@ -616,9 +618,16 @@ func nodeDecode(ctx *core.Ctx, cs []nodeCheck) {
 	}
 	res, engine, err := RunNode(jobs)
 	if err != nil {
+		res, engine, err = RunNode(jobs) // once more in a fresh process
+		if err == nil {
+			atomic.AddInt64(&jsRetriedOK, 1)
+		}
+	}
+	if err != nil {
 		ctx.ToolError("node decoders: %v", err)
 		return
 	}
+	confirmJobs(ctx, jobs, res)
 	ctx.Extra["js_engine"] = engine
 	for i, c := range cs {
 		r := res[i]
